@@ -842,6 +842,18 @@ func (tr *Tr) ret(fr *frame, rs []Val, pos token.Pos) {
 			env.names["err"] = rs[res.Len()-1]
 		}
 	}
+	// a function that calls its own function parameter h (`calls h`): ran_h / res_h at this return
+	for _, hn := range c.Calls {
+		if p := fr.params[hn]; p.T != "" {
+			if sig, ok := p.Ty.Underlying().(*types.Signature); ok {
+				ranK, resK := tr.cbKeys(hn, sig.Results())
+				env.names["ran_"+hn] = Val{T: sel(tr.C.hget(fr.heap, ranK), "0"), Ty: tBool}
+				if resK != "" && sig.Results().Len() == 1 {
+					env.names["res_"+hn] = Val{T: sel(tr.C.hget(fr.heap, resK), "0"), Ty: sig.Results().At(0).Type()}
+				}
+			}
+		}
+	}
 	for k, e := range c.Ensures {
 		t, err := env.evalBool(e.S)
 		if err != nil {
